@@ -607,8 +607,17 @@ def run_session(ctx, i):
     cap = LogCapture()
     with cap:
         with clock_cooperator(s):
-            s.setup()
-            s.run()
+            try:
+                s.setup()
+                s.run()
+            except Exception as e:  # a reactor would log it and drop the connection; never "held"
+                import traceback
+
+                ctx.violation("exception-escaped-" + type(e).__name__, "an exception escaped from the TLS layer into the transport/reactor",
+                              {"session": i, "params": getattr(s, "params", None), "steps": s.steps[-60:],
+                               "traceback": "".join(traceback.format_exception(type(e), e, e.__traceback__))[-1500:]})
+                ctx.evaluated()
+                return
     s.judge(cap)
     ctx.evaluated()
     if i < 3:
